@@ -157,6 +157,61 @@ def r6(ctx, table):
     ctx.floor(rule, n, "C06.R6.primitives")
 
 
+def r7(ctx):
+    rule = "C06.R7"
+    ctx.rule(rule, "the unconstrained form is not a way around the range check: every path of UperWriter::write_number that leads to "
+                   "write_unconstrained_whole_number has C::EXTENSIBLE tested true, or both C::MIN and C::MAX matched as None (no "
+                   "constraint at all) - a value outside a non-extensible range must reach write_constrained_whole_number, which "
+                   "refuses it (associated constants are atoms of the path condition)")
+    P = ctx.program()
+    bs = [b for b in P.find("asn1rs", "UperWriter as descriptor::Writer>::write_number") if b.def_kind == "AssocFn"]
+    if len(bs) != 1:
+        ctx.fail(rule, "anchor-lost:write_number", "matched %d bodies" % len(bs))
+        return
+    b = bs[0]
+    O = X.Origins(b, P)
+    sinks = []
+    for cs in b.calls():
+        if cs.bb not in b.reachable:
+            continue
+        if cs.name == "write_unconstrained_whole_number":
+            sinks.append(cs)
+            continue
+        for a in O.call_args(cs):
+            a = X.strip(a)
+            if a[0] == "agg" and a[1] == "closure":
+                cb = P.bodies.get("%s::%s" % (b.crate, a[2]))
+                if cb is not None and any(c.name == "write_unconstrained_whole_number" for c in cb.calls()):
+                    sinks.append(cs)
+    if not sinks:
+        ctx.fail(rule, "write_number#anchor-lost:unconstrained", "write_number no longer uses write_unconstrained_whole_number", "%s:%d" % (b.file, b.line))
+        return
+    n = 0
+    for cs in sinks:
+        paths = R.reach_dnf(b, O, cs.bb, param_atoms=True, program=P)
+        d = {"function": b.path, "unconstrained_form_at": cs.loc(), "paths": len(paths or ())}
+        if paths is None:
+            ctx.fail(rule, "write_number#undecided", "too many paths", cs.loc(), d)
+            continue
+        bad = []
+        for p in paths:
+            n += 1
+            l = dict(p)
+            if l.get("assoc:EXTENSIBLE") == "true":
+                continue
+            if l.get("assoc:MIN#variant") == "in:0" and l.get("assoc:MAX#variant") == "in:0":
+                continue
+            bad.append(sorted("%s is %s" % kv for kv in p))
+        if bad:
+            d["offending_path"] = bad[0]
+            ctx.fail(rule, "write_number#unconstrained-without-extension", "the unconstrained form is reached on a path on which neither "
+                     "C::EXTENSIBLE holds nor both bounds are absent (%s): a value outside a non-extensible range is encoded instead of "
+                     "refused" % "; ".join(bad[0])[:200], cs.loc(), d)
+        else:
+            ctx.ok(rule, "write_number#unconstrained", d)
+    ctx.floor(rule, n, "C06.R7.paths")
+
+
 def r2(ctx, table):
     rule = "C06.R2"
     ctx.rule(rule, "T5 (kinds): every Writer method of UperWriter that has constraint constants hands C::MIN / C::MAX / C::EXTENSIBLE "
@@ -250,3 +305,4 @@ def run(ctx):
     from .c02 import r5 as rebuilders_keep_the_marker
     rebuilders_keep_the_marker(ctx, rule="C06.R5")
     r6(ctx, table)
+    r7(ctx)
